@@ -13,11 +13,13 @@ Events:
    ("send", tag)             create_task(uart.send(frame))                      (bare uart sender)
    ("ack", n)                an ACK frame with ack sequence n arrives
    ("rsp", kind)             the response frame of kind's command arrives
+   ("rsp2", kind1, kind2)    two response frames arrive in one read chunk
    ("data",)                 an unrelated indication arrives
    ("tick", ms)              virtual time advances
    ("cancel", rid)           the caller cancels request rid (task.cancel())
    ("cancelsend", tag)
-   ("close",) ("lost",) ("reset_begin",) ("reset_end",)
+   ("close",) ("lost",) ("reset_begin",) ("reset_end",)    (reset_begin/end: the reset lock held / released)
+   ("reset",)                create_task(api.reset())  - the real reset procedure (monitor scenarios only)
 """
 import asyncio
 import random
@@ -99,6 +101,9 @@ class Runner:
         class App:
             def connection_lost(self, exc):
                 outer.obs.append("L")
+
+            def get_sequence(self):
+                return 1
         self.api.set_application(App())
         self.tasks = {}       # rid -> task
         self.frag_bodies = {}  # rid -> [bodies]
@@ -123,6 +128,11 @@ class Runner:
                 t.cancel()
         if self.reset_task is not None and not self.reset_task.done():
             self.reset_task.cancel()
+        rr = getattr(self, "real_reset", None)
+        if rr is not None and not rr.done():
+            rr.cancel()
+        if hasattr(self, "_orig_connect"):
+            self.U.connect = self._orig_connect
         try:
             self.loop.settle()
         except Exception:
@@ -198,6 +208,12 @@ class Runner:
         elif k == "rsp":
             self.rx_seq = self.rx_seq % 3 + 1
             proto.data_received(response_bytes(ev[1], self.rx_seq))
+        elif k == "rsp2":
+            # two response frames in ONE read chunk (one data_received call)
+            self.rx_seq = self.rx_seq % 3 + 1
+            b1 = response_bytes(ev[1], self.rx_seq)
+            self.rx_seq = self.rx_seq % 3 + 1
+            proto.data_received(b1 + response_bytes(ev[2], self.rx_seq))
         elif k == "data":
             self.rx_seq = self.rx_seq % 3 + 1
             proto.data_received(build_frame_bytes(0x00020600, b"\x01\x02", 0xC0 | (self.rx_seq << 2)))
@@ -229,6 +245,22 @@ class Runner:
         elif k == "reset_end":
             if self.reset_task is not None:
                 self.reset_task.cancel()
+        elif k == "reset":
+            # the REAL api.reset(): NCPModuleReset request, wait for the disconnect, reconnect (uart.connect stubbed)
+            U = self.U
+            outer = self
+            if not hasattr(self, "_orig_connect"):
+                self._orig_connect = U.connect
+
+                async def fake_connect(config, api_):
+                    p = U.ZbossNcpProtocol(config, api_)
+                    outer.wire = Wire()
+                    outer.wpos = 0
+                    p.connection_made(outer.wire)
+                    outer.proto = p
+                    return p
+                U.connect = fake_connect
+            self.real_reset = loop.create_task(api.reset())
         loop.settle()
         return self._collect()
 
